@@ -3283,20 +3283,29 @@ class QuicConnection:
         ack_delay = now - space.largest_received_time
         ack_delay_encoded = int(ack_delay * 1000000) >> self._local_ack_delay_exponent
 
+        # The frame must fit in the packet, whatever the number of gaps in what
+        # we received: report the most recent ranges only, each additional
+        # range takes at most 16 bytes (RFC 9000 section 13.2.3).
+        max_ranges = (
+            1 + max(0, builder.remaining_buffer_space - ACK_FRAME_CAPACITY) // 16
+        )
+
         buf = builder.start_frame(
             QuicFrameType.ACK,
             capacity=ACK_FRAME_CAPACITY,
             handler=self._on_ack_delivery,
             handler_args=(space, space.largest_received_packet),
         )
-        ranges = push_ack_frame(buf, space.ack_queue, ack_delay_encoded)
+        ranges = push_ack_frame(
+            buf, space.ack_queue, ack_delay_encoded, max_ranges=max_ranges
+        )
         space.ack_at = None
 
         # log frame
         if self._quic_logger is not None:
             builder.quic_logger_frames.append(
                 self._quic_logger.encode_ack_frame(
-                    ranges=space.ack_queue, delay=ack_delay
+                    ranges=list(space.ack_queue)[-ranges:], delay=ack_delay
                 )
             )
 
